@@ -79,7 +79,8 @@ Proof. exact granted_touches_final. Qed.
 Print Assumptions c06_granted_touches_exactly_the_decided_attribute.
 
 (* 3. Objects with their own hooks decide instead of the configuration (no configuration is consulted: c is arbitrary);
-      restricted views permit exactly their listed names. *)
+      restricted views permit exactly their listed names.  SCOPE: the routes that hand the object itself to _access_attr
+      (all by-name routes except cmp, see 4 and 4'). *)
 Theorem c06_hook_overrides : forall c perm p o,
   hook_for o perm = true -> is_text p -> decide_gen c perm p o = Ok (ViaHook (text_of p)).
 Proof. intros. rewrite decide_gen_eq. now apply hook_overrides. Qed.
@@ -130,11 +131,49 @@ Print Assumptions c06_service_root_denies_writes.
       repr/str/hash/call/buffiter/instancecheck run special methods of the object; ping/close/getroot/del touch no attribute.
       "No other getattr-like call with a peer-chosen name" rests on the translator's syntactic scan of the handler bodies
       (trusted); the bodies of the excluded handlers and lib.get_methods are shape-snapshotted. *)
+(*    WHOSE hooks: each route also records which object is handed to _access_attr (handler_targets).  getattr, delattr,
+      setattr, callattr, ctxexit and oldslicing hand over the object the peer named, so that object's own hooks decide
+      (c06_hook_overrides).  cmp hands over type(obj): on the cmp route the OBJECT'S OWN HOOK IS NEVER ASKED, the configuration
+      decides on the class's attributes (or the metaclass's hook does).  SCOPE of "own hooks decide instead of the
+      configuration": every by-name route except cmp.  On the pinned tree the name on the cmp route is moreover free
+      (cmp_ops_restricted = false): c06_cmp_route_refuted_when_unrestricted exhibits a method called by name that the
+      object's hook refuses on every other route (finding; proposed repair build/proposed_findings/C06_cmp.patch serves
+      only the comparison protocol there, after which c06_cmp_route_only_comparisons applies: comparisons are then
+      applied as Python applies operators, through the type, subject to the configuration). *)
 Theorem c06_all_routes_checked_partial : forall h rs, In (h, rs) Gen_attrpolicy.handlers ->
   handler_perms Gen_attrpolicy.handlers h = expected_perms h /\
-  Forall (fun x => x <> None) (handler_perms Gen_attrpolicy.handlers h).
+  Forall (fun x => x <> None) (handler_perms Gen_attrpolicy.handlers h) /\
+  handler_targets Gen_attrpolicy.handlers h = expected_targets h.
 Proof. exact (routes_checked Gen_attrpolicy.handlers tie_routes_ok). Qed.
 Print Assumptions c06_all_routes_checked_partial.
+
+(* 4'. The cmp route.  decide_cmp r g c p ty: the decision of _handle_cmp for the peer-chosen name p on an object whose
+       class has the attributes/hook of ty; r = generated fact "the accessor serves only the comparison protocol". *)
+Theorem c06_cmp_route_only_comparisons : Gen_attrpolicy.cmp_ops_restricted = true ->
+  forall g c p ty final, decide_cmp Gen_attrpolicy.cmp_ops_restricted g c p ty = Ok (ViaDefault final) ->
+  In final (map text_of_string Gen_attrpolicy.cmp_ops).
+Proof.
+  intros H g c p ty final D. rewrite tie_cmp_route, H. rewrite H in D. now apply (cmp_restricted_only_comparisons g c p ty).
+Qed.
+Print Assumptions c06_cmp_route_only_comparisons.
+
+Theorem c06_cmp_route_refuted_when_unrestricted : Gen_attrpolicy.cmp_ops_restricted = false ->
+  exists c p inst ty final,
+    hook_get inst = true /\ decide_gen c PGet p inst = Ok (ViaHook (text_of p)) /\      (* every other route: the hook decides *)
+    hook_get ty = false /\ decide_cmp Gen_attrpolicy.cmp_ops_restricted Gen_attrpolicy.decode_guarded c p ty = Ok (ViaDefault final) /\
+    ~ In final (map text_of_string cmp_names).                                          (* cmp: a non-comparison method reached *)
+Proof.
+  intros H. rewrite H.
+  exists {| sw := Gen_attrpolicy.default_switches; exposed_prefix := text_of_string "exposed_"; safe_attrs := [] |},
+         (NStr (text_of_string "dump")),
+         {| attrs := []; hook_get := true; hook_set := false; hook_del := false |},
+         {| attrs := [text_of_string "exposed_dump"]; hook_get := false; hook_set := false; hook_del := false |},
+         (text_of_string "exposed_dump").
+  split; [reflexivity|]. split; [rewrite decide_gen_eq; vm_compute; reflexivity|]. split; [reflexivity|].
+  split; [destruct Gen_attrpolicy.decode_guarded; vm_compute; reflexivity|].
+  intros K. apply mem_In in K. vm_compute in K. discriminate.
+Qed.
+Print Assumptions c06_cmp_route_refuted_when_unrestricted.
 
 Theorem c06_route_exclusions :
   handlers_with_routes Gen_attrpolicy.handlers = ["cmp"; "getattr"; "delattr"; "setattr"; "callattr"; "ctxexit"; "oldslicing"]%string /\
@@ -145,10 +184,10 @@ Proof. destruct tie_handler_partition as [A B]. destruct tie_pickle_gate as [C D
 Print Assumptions c06_route_exclusions.
 
 Theorem c06_route_is_consistent_triple : forall r p, route_perm r = Some p ->
-  r = match p with
-      | PGet => RAccess "_rpyc_getattr" "allow_getattr" "getattr"
-      | PSet => RAccess "_rpyc_setattr" "allow_setattr" "setattr"
-      | PDel => RAccess "_rpyc_delattr" "allow_delattr" "delattr"
+  exists t, r = match p with
+      | PGet => RAccess t "_rpyc_getattr" "allow_getattr" "getattr"
+      | PSet => RAccess t "_rpyc_setattr" "allow_setattr" "setattr"
+      | PDel => RAccess t "_rpyc_delattr" "allow_delattr" "delattr"
       end%string.
 Proof. exact route_perm_sound. Qed.
 Print Assumptions c06_route_is_consistent_triple.
@@ -284,12 +323,23 @@ Example c06_service_root_sample :
   fst (fst (handle_service true true false cfg_default PGet (NStr (T "pub")) [T "pub"])) = Raise AttributeError.
 Proof. vm_compute. repeat split. auto. Qed.
 
+(* the cmp route, restricted form: comparison names pass (subject to the configuration), any other name is refused *)
+Example c06_cmp_route_sample :
+  let c := {| sw := Gen_attrpolicy.default_switches; exposed_prefix := text_of_string "exposed_"; safe_attrs := [text_of_string "__eq__"] |} in
+  let ty := {| attrs := [text_of_string "__eq__"; text_of_string "exposed_dump"]; hook_get := false; hook_set := false; hook_del := false |} in
+  decide_cmp true true c (NStr (text_of_string "__eq__")) ty = Ok (ViaDefault (text_of_string "__eq__")) /\
+  decide_cmp true true c (NStr (text_of_string "dump")) ty = Raise AttributeError /\
+  decide_cmp false true c (NStr (text_of_string "dump")) ty = Ok (ViaDefault (text_of_string "exposed_dump")).
+Proof. vm_compute. repeat split. Qed.
+
 Example c06_routes_nonempty :
   In ("callattr", [RHandler "getattr"; RHandler "call"])%string Gen_attrpolicy.handlers /\
   handler_perms Gen_attrpolicy.handlers "oldslicing" = [Some PGet; Some PGet] /\
   handler_perms Gen_attrpolicy.handlers "setattr" = [Some PSet] /\
-  routes_ok [("setattr", [RAccess "_rpyc_setattr" "allow_getattr" "setattr"])]%string = false /\
-  routes_ok [("callattr", [RRaw "getattr"])]%string = false.
+  routes_ok [("setattr", [RAccess "obj" "_rpyc_setattr" "allow_getattr" "setattr"])]%string = false /\
+  routes_ok [("callattr", [RRaw "getattr"])]%string = false /\
+  handler_targets Gen_attrpolicy.handlers "cmp" = [Some true] /\ handler_targets Gen_attrpolicy.handlers "callattr" = [Some false] /\
+  routes_ok [("getattr", [RAccess "type(obj)" "_rpyc_getattr" "allow_getattr" "getattr"])]%string = false.
 Proof. vm_compute. repeat split. auto 20. Qed.
 
 (* a history with a restrictive connection, a classic one, a permissive one, a close and requests in between *)
